@@ -29,7 +29,8 @@ REQUIRED = ["op.add", "op.assign-all", "op.assign-ids", "op.assign-times", "op.a
             "shape.Polygon", "shape.ShapeGroup", "obstacle.static", "obstacle.dynamic-trajectory", "obstacle.dynamic-none",
             "straddling(centre-lanelets<shape-lanelets)", "inv-g-checked", "inv-r-checked", "op.move",
             "centre-on-a-lanelet-the-occupancy-does-not-touch", "scripted-history", "op.shorten-prediction",
-            "dynamic-obstacle-entering-after-step-0", "turning-on-the-spot"]
+            "dynamic-obstacle-entering-after-step-0", "turning-on-the-spot", "c-shaped-body.static",
+            "c-shaped-body.dynamic"]
 EXHAUSTIVE = {"quick": "all histories of length <= 2 over the 10-operation alphabet on a fixed 2-obstacle universe",
               "thorough": "all histories of length <= 3 over the 10-operation alphabet on a fixed 2-obstacle universe"}
 ASSUMPTIONS = ["set-based predictions are outside the quantifier", "obstacles are added after the network exists",
@@ -397,6 +398,38 @@ def run(ctx):
                    [("add", 101), ("assign-ids", 101), ("move", 101), ("assign-all", None)]):
             ctx.fingerprint(["turning", i, [[o, a] for o, a in sh]])
             run_history(rng, lanes, [ob], sh, "turning")
+    # ------------------------------------------------------------------- fixed universe: a C-shaped body
+    # three lanes side by side, the middle one begins later; a C-shaped body (a gantry / a vehicle combination seen from above)
+    # has its bars on the outer lanes and its connector before the beginning of the middle lane. Its reference point (the
+    # centroid of the polygon) lies on the middle lane, which the body does not touch.
+    from commonroad.geometry.shape import Polygon
+    from commonroad.scenario.obstacle import StaticObstacle
+    for i, rng in ctx.cases("c-shaped-body", ctx.pick(4, 100)):
+        x0, y0 = float(rng.randint(-40, 40)), float(rng.randint(-40, 40))
+
+        def lane(lid, xa, ya):
+            xs = np.array([xa, 20.0, 40.0]) + x0
+            r_ = np.column_stack([xs, np.full(3, ya + y0)])
+            l_ = np.column_stack([xs, np.full(3, ya + 3.0 + y0)])
+            return Lanelet(l_, (l_ + r_) / 2, r_, lid)
+        lanes = [lane(1, 0.0, 0.0), lane(2, 10.0, 3.0), lane(3, 0.0, 6.0)]
+        body = Polygon(np.array([[2.0, 0.5], [30.0, 0.5], [30.0, 2.5], [4.0, 2.5], [4.0, 6.5], [30.0, 6.5], [30.0, 8.5],
+                                 [2.0, 8.5]]))
+        pos = np.array([x0, y0])
+        kind = ("static", "dynamic")[i % 2]
+        if kind == "static":
+            ob = StaticObstacle(101, ObstacleType.CONSTRUCTION_ZONE, body, InitialState(time_step=0, position=pos,
+                                                                                        orientation=0.0, velocity=0.0))
+        else:
+            ob = DynamicObstacle(101, ObstacleType.TRUCK, body, InitialState(time_step=0, position=pos, orientation=0.0,
+                                                                             velocity=0.0),
+                                 TrajectoryPrediction(Trajectory(1, [KSState(time_step=1, position=pos + np.array([1.0, 0.0]),
+                                                                             orientation=0.0, velocity=1.0,
+                                                                             steering_angle=0.0)]), body))
+        ctx.feature("c-shaped-body." + kind)
+        for sh in ([("add", 101), ("assign-all", None), ("remove", 101)], [("add", 101), ("assign-ids", 101)]):
+            ctx.fingerprint(["c-shape", i, [[o, a] for o, a in sh]])
+            run_history(rng, lanes, [ob], sh, "c-shape")
     # -------------------------------------------------------------------------------------------- random histories
     n = ctx.pick(120, 50000)
     for i, rng in ctx.cases("random", n):
